@@ -68,7 +68,7 @@ Definition demo : list op :=
    OInsert SOut 2 0%Z (AObj (S_ 3)); OExtend SOut 2 [AObj (S_ 4)]; OPop SOut 2 0%Z; OPop SIn 2 0%Z;
    OReplace SIn 1 (AObj (S_ 0)) (AAt SOut 0 0); ORemove SIn 1 (AAt SIn 1 0); ODisc SOut (AObj (S_ 0));
    OUnitDisconnect 2 true; OTakePlaceOf 1 2; OReconnect (Some 0) 0%Z (AObj (S_ 2)) 1%Z (Some 1);
-   OUnitInsert 0 (AObj (S_ 2)); ODiscBoth (AObj (S_ 2)); OClear SOut 2; OEmpty SIn 1;
+   OUnitInsert 0 (AObj (S_ 2)); OUnitInsert 1 (AObj (S_ 2)); ODiscBoth (AObj (S_ 2)); OClear SOut 2; OEmpty SIn 1;
    ONewUnit 2 2 true false (FList [IReal 0; INone]) (FList [INew; IReal 1; INone]);
    ONewUnit 1 1 true true (FOne (IReal 0)) FEmpty; OReplaceWith 3 None].
 Example C18_nonvacuous : within_pre (empty_world 5) (setup3 ++ demo) /\ Inv (run U3 demo).
